@@ -335,6 +335,12 @@ func (u *upstream) updateClients(clients map[string]*client) {
 
 func (u *upstream) handleRedirection(req *simpleRequest, resp *RespValue) {
 	err := strings.Split(string(resp.Text), " ")
+	if len(err) < 3 {
+		// not a well-formed redirection (e.g. "MOVED 1"), treat it as an
+		// ordinary error reply instead of indexing out of range.
+		req.SetResponse(resp)
+		return
+	}
 	hostAddr := err[2]
 	switch strings.ToLower(err[0]) {
 	case MOVED:
